@@ -385,6 +385,7 @@ func checkC18(w *World, r *Report) {
 	c18InvalidVersion(w, r, byFn, touches)
 	c18SourceAndHash(w, r, byFn)
 	c18Events(w, r, touches)
+	c18Singleton(w, r, byFn, touches)
 }
 
 // errorsIsTarget returns the package-level sentinel an errors.Is call tests for.
@@ -1101,4 +1102,88 @@ func c18Events(w *World, r *Report, touches func(*ssa.Function) bool) {
 // predOf: a condition that is a Phi of the current block is evaluated relative to the block we came from.
 func predOf(cond ssa.Value, cur, pred *ssa.BasicBlock) *ssa.BasicBlock {
 	return pred
+}
+
+// c18Singleton (C18.9): the hash bookkeeping is an unlocked check-then-act on the provider's state;
+// it is only correct if two polls of the same source never overlap, i.e. the scheduled task runs
+// in singleton mode (or the bookkeeping function holds a mutex).
+func c18Singleton(w *World, r *Report, byFn map[*ssa.Function][]provSite, touches func(*ssa.Function) bool) {
+	ri := r.Rule("C18.9", 2, "a periodically scheduled poll whose bookkeeping is an unlocked check-then-act on the provider state is scheduled in singleton mode, so two polls of one source never overlap")
+	n := 0
+	for _, fn := range w.Funcs {
+		if w.isMockFn(fn) || !strings.Contains(fnPkgPath(fn), "/internal/rules/provider/") {
+			continue
+		}
+		var tasks []*ssa.Call
+		for _, c := range findCalls(fn, func(c *ssa.CallCommon) bool { return strings.HasSuffix(callName(c), "gocron/v2.NewTask") }) {
+			tasks = append(tasks, c)
+		}
+		if len(tasks) == 0 {
+			continue
+		}
+		for _, tc := range tasks {
+			// the task function (a bound method value or function)
+			var target *ssa.Function
+			for _, o := range w.Origins(tc.Common().Args[0], nil) {
+				switch x := o.(type) {
+				case *ssa.MakeClosure:
+					if f, ok := x.Fn.(*ssa.Function); ok {
+						target = f
+						if strings.HasSuffix(f.Name(), "$bound") {
+							// bound method wrapper: its only call is the method
+							for _, c := range callsIn(f) {
+								if g := c.Common().StaticCallee(); g != nil {
+									target = g
+								}
+							}
+						}
+					}
+				case *ssa.Function:
+					target = x
+				}
+			}
+			if target == nil || !touches(target) {
+				continue
+			}
+			// is the bookkeeping locked? (any state write of a reached provider function under a mutex)
+			locked := true
+			reach, _ := w.CG().Reachable([]*ssa.Function{target}, nil)
+			reach[target] = nil
+			for g := range reach {
+				if !strings.Contains(fnPkgPath(g), "/internal/rules/provider/") {
+					continue
+				}
+				for _, sw := range stateWrites(g) {
+					held := lockInfo(g).At[sw.In]
+					if len(held) == 0 && len(entryHeld(w, g, 0)) == 0 {
+						locked = false
+					}
+				}
+			}
+			n++
+			r.Analysed(w.FnName(fn))
+			singleton := false
+			isSingletonOpt := func(x ssa.Value) bool {
+				c, ok := x.(*ssa.Call)
+				return ok && strings.HasSuffix(callName(c.Common()), "gocron/v2.WithSingletonMode")
+			}
+			for _, ci := range callsIn(fn) {
+				cc := ci.Common()
+				un := callName(cc)
+				if !(strings.HasSuffix(un, "gocron/v2.NewScheduler") || cc.IsInvoke() && cc.Method.Name() == "NewJob") {
+					continue
+				}
+				for _, a := range cc.Args {
+					if dependsOn(w, a, isSingletonOpt) {
+						singleton = true
+					}
+				}
+			}
+			r.Ob(ri, w.FnName(fn)+"|"+target.Name()+"|singleton-or-locked", tc.Pos(), singleton || locked,
+				"polls of the same source can overlap (no singleton mode) while "+target.Name()+" compares and records the source's hash without a lock: a slow fetch makes the same content be created twice, or an older version be applied after a newer one")
+		}
+	}
+	if n == 0 {
+		r.Undecided(ri, "no scheduled provider task found")
+	}
 }
